@@ -65,6 +65,8 @@ def _coarse_keys(e):
     n = last["n"]
     if n in ("Delegate", "Undelegate", "KillDelegatorX", "KillDelegatorXByG", "GoOnline", "GoOffline", "Evidence", "Flush", "Kill", "EpochEnd", "DelegateDX"):
         ks.add("dlg|%s|%s|%s%s%s" % (op, adm, s["dg"], s["sw"], s["dnew"]))
+    if n in ("KillDelegatorX", "KillDelegatorXByG", "Undelegate", "GoOnline"):
+        ks.add("dlgst|%s|%s|%s%s" % (op, adm, s["st"], s["dg"]))
     if n in ("GoOnline", "GoOffline", "Flush", "Penalty", "Delegate", "Kill", "EpochEnd"):
         ks.add("onl|%s|%s|%s%s%s" % (op, adm, s["on"], s["psw"], s["pen"]))
     if n in ("Delegate", "DelegateDX", "KillDelegatorD", "GoOnline", "Flush", "Kill", "EpochEnd"):
@@ -181,19 +183,24 @@ def _validate_life(ctx, trace):
     """Trace_Lifecycle: (accepted, broken clauses [(line, clause)], drift records [(line, kind, text)], info)"""
     r = vlib.tlc(ctx, "Trace_Lifecycle.tla", "Trace_Lifecycle.cfg", workers=1, env={"TRACE_FILE": trace}, timeout=3000, want_exports=False)
     broken, drift = [], []
-    rejected = None
+    rejected, ndrift = None, None
     for line in r.out.splitlines():
         m = re.match(r'<<"CLAUSE_BROKEN", (\d+), "([^"]*)">>', line)
         if m:
             broken.append((int(m.group(1)), m.group(2)))
-        m = re.match(r'<<"DRIFT_AT", (\d+), "([^"]*)", (.*)>>$', line)
+        m = re.match(r'"DRIFT_AT (\d+) (\S+) (.*)"$', line)
         if m:
-            drift.append((int(m.group(1)), m.group(2), m.group(3)))
+            drift.append((int(m.group(1)), m.group(2), m.group(3).replace('\\"', '"')))
+        m = re.match(r'<<"DRIFT", (\d+)>>', line)
+        if m:
+            ndrift = int(m.group(1))
         m = re.match(r'<<"TRACE_REJECTED_AT", (\d+), (\d+)>>', line)
         if m:
             rejected = int(m.group(1))
     if not r.ok and not broken:
         raise vlib.CheckError("Trace_Lifecycle could not be evaluated on %s (not a verdict): line %s\n%s" % (os.path.basename(trace), rejected, (r.error or r.out)[-2500:]))
+    if ndrift is not None and ndrift != len(drift):
+        raise vlib.CheckError("Trace_Lifecycle counted %d disagreements but %d were read back" % (ndrift, len(drift)))
     return r.ok, broken, drift, {"states": r.distinct, "wall": r.wall}
 
 
